@@ -33,6 +33,8 @@ type Setup struct {
 	Parents []ParentRef
 	Progs   Programs
 	Sig     map[string]string
+	// HealthyStatus is the Ready condition status the fair status actor reports ("" = "True").
+	HealthyStatus string
 }
 
 func isRolling(m string) bool { return strings.HasPrefix(m, "Rolling") }
@@ -501,31 +503,40 @@ func removeFinalizer(o Object, f string) {
 	setPath(o, keep, "metadata", "finalizers")
 }
 
-// StatusActor offers "the child's own controller" marking children ready / observed.
+// StatusActor offers "the child's own controller" marking children healthy or
+// unhealthy. What healthy looks like is HealthyStatus/"Sim" (status and reason of
+// the Ready condition); unhealthy is the opposite status with reason "Bad".
 func (s *Setup) StatusActor(healthy bool) []EnvOp {
 	w := s.W
 	var ops []EnvOp
+	hs := s.HealthyStatus
+	if hs == "" {
+		hs = "True"
+	}
 	for _, c := range s.allChildren() {
 		res := resOf(w, c)
 		ns, name := mstr(c, "namespace"), mstr(c, "name")
 		gen := getInt(c, "metadata", "generation")
-		want := "True"
+		want, reason := hs, "Sim"
 		if !healthy {
-			want = "False"
-		}
-		cur := ""
-		for _, cond := range getList(c, "status", "conditions") {
-			if getStr(cond, "type") == "Ready" {
-				cur = getStr(cond, "status")
+			want, reason = "False", "Bad"
+			if hs == "False" {
+				want = "True"
 			}
 		}
-		if cur == want && getInt(c, "status", "observedGeneration") == gen {
+		cur, curReason := "", ""
+		for _, cond := range getList(c, "status", "conditions") {
+			if getStr(cond, "type") == "Ready" {
+				cur, curReason = getStr(cond, "status"), getStr(cond, "reason")
+			}
+		}
+		if cur == want && curReason == reason && getInt(c, "status", "observedGeneration") == gen {
 			continue
 		}
-		ops = append(ops, EnvOp{"status " + res.Kind + "/" + ns + "/" + name + "=" + want, func(w *World) {
+		ops = append(ops, EnvOp{"status " + res.Kind + "/" + ns + "/" + name + "=" + want + "/" + reason, func(w *World) {
 			EditStatus(w, res, ns, name, "status", func(o Object) {
 				o["status"] = Object{"observedGeneration": getInt(o, "metadata", "generation"),
-					"conditions": []interface{}{Object{"type": "Ready", "status": want, "reason": "Sim"}}}
+					"conditions": []interface{}{Object{"type": "Ready", "status": want, "reason": reason}}}
 			})
 		}})
 	}
